@@ -118,7 +118,17 @@ def step(w, ri, tg):
         js = json.loads(metapype_io.to_json(src))
         for n in walk(src):
             Node.store.pop(n.id, None)          # undo the scratch build
-        style = rng.choice(["int", "ext", "uuid"])       # ("n<k>" is what impl.build itself hands out in this harness: not used here)
+        style = rng.choice(["int", "ext", "uuid", "session"])       # ("n<k>" is what impl.build itself hands out in this harness: not used here)
+        if style == "session":
+            # ids as ANOTHER SESSION of this same program would have written them: if this process hands out predictable ids (a
+            # counter), the other session's ids are the ones this process is about to hand out
+            probe = Node("zzProbe"); pid_ = probe.id
+            Node.delete_node_instance(pid_)
+            if str(pid_).isdigit():
+                w.fserial = max(w.fserial, int(pid_))
+                style = "int"
+            else:
+                style = "uuid"
         def renum(d):
             for nm, body in d.items():
                 for f in body:
